@@ -204,7 +204,12 @@ class C09Misc(Harness):
         if p["op"] == "T":
             t = h.T
             shares = bool(E.np.shares_memory(t.frequencies, h.frequencies)) or bool(E.np.shares_memory(t.errors2, h.errors2)) or any(a is b for a in t._binnings for b in h._binnings)
-            return {"T": _snap(E, t), "TT": _snap(E, t.T), "TT_eq": bool(t.T == h), "parent": _snap(E, h), "T_shares": shares}
+            obs = {"T": _snap(E, t), "TT": _snap(E, t.T), "TT_eq": bool(t.T == h), "parent": _snap(E, h), "T_shares": shares, "T_distinct": h.T is not t}
+            # the source changes afterwards (scaled in place): a transposition taken now shows the new contents, the earlier one the old
+            h *= 2
+            obs["T_after_change"] = _snap(E, h.T)
+            obs["T_earlier_after_change"] = _snap(E, t)
+            return obs
         if p["op"] == "acc":
             a = E.attempt(h.accumulate, p["axis"])
             a2 = E.attempt(h.accumulate, NAMES[p["axis"]])
@@ -234,6 +239,10 @@ class C09Misc(Harness):
                                     for k in range(2) for j in range(shape[k])])
             yield "TT_contents", z3.And([cx.eq(tt["freq"][i][j], f[(i, j)]) for (i, j) in idxs] + [cx.eq(tt["err2"][i][j], q[(i, j)]) for (i, j) in idxs])
             yield "TT_names", tt["axis_names"] == NAMES[:2] and tt["shape"] == shape
+            t2, t1 = obs["T_after_change"], obs["T_earlier_after_change"]
+            yield "T_is_a_new_object_each_time", obs["T_distinct"] is True
+            yield "T_follows_later_changes", z3.And([cx.eq(t2["freq"][j][i], 2 * f[(i, j)]) for (i, j) in idxs]) if dims(t2["freq"]) == shape[::-1] else False
+            yield "earlier_T_keeps_its_contents", z3.And([cx.eq(t1["freq"][j][i], f[(i, j)]) for (i, j) in idxs]) if dims(t1["freq"]) == shape[::-1] else False
             yield "TT_eq", obs["TT_eq"] is True
             yield "T_shares_nothing_with_parent", obs["T_shares"] is False
             yield "T_keeps_missed", z3.And(cx.eq(t["missed"], cx.t(x["m"])), cx.eq(tt["missed"], cx.t(x["m"])), cx.eq(obs["parent"]["missed"], cx.t(x["m"])))
